@@ -484,7 +484,7 @@ Definition exr : circuit :=
                mkcell 0 1 0 0 oN pANY true false; mkcell 9 1 0 0 oN pANY true false] |}.
 Definition exr_nets : list (list hpin) := [[hp 0 0 0; hp 2 0 0]].
 
-Lemma exr_std : std_design exr 2.
+Example exr_std : std_design exr 2.
 Proof.
   split; [lia|]. split; [intros r [<-|[]]; reflexivity|].
   split; [apply pairwise_disjointb_spec; vm_compute; reflexivity|].
